@@ -219,7 +219,7 @@ def run_case(case):
                 sc = max(1.0, float(np.abs(exp).max()))
                 e = float(np.abs(got - exp).max()) / (tol * sc * 8)
                 maxima["taskparam"] = max(maxima.get("taskparam", 0.0), e)
-                if e > 1:
+                if not (e <= 1):  # NaN-safe
                     bad = f"head {i} param {n_}: got {got.tolist()} expected {np.asarray(exp).tolist()}"
                     break
             if bad:
@@ -232,7 +232,7 @@ def run_case(case):
             else:
                 e = abs(float(got) - exp) / (tol * max(1.0, abs(exp)) * 8)
                 maxima["pooled"] = max(maxima.get("pooled", 0.0), e)
-                if e > 1:
+                if not (e <= 1):  # NaN-safe
                     bad = f"pooled param U (tasks {usesU}): got {float(got)} expected {exp}"
         if not bad and not usesU and delta[("U",)] is not None and ("U",) not in pre:
             bad = "unused pooled param U received a .grad"
@@ -280,7 +280,7 @@ def run_case(case):
             if max(e1, e2) < best:
                 best, found = max(e1, e2), order
         maxima["jacobian+slices"] = max(maxima.get("jacobian+slices", 0.0), min(best, 1e9))
-        if best > 1:
+        if not (best <= 1):  # NaN-safe
             viol.append(dict(sig="shared-jacobian-or-slices-mismatch", cls=f"shared:{aggname}:{smode}:{cont}",
                              msg=f"{where} | err/tol={best:.3g} M={np.round(Mx, 6).tolist()} Jref={np.round(Jref, 6).tolist()}"[:900]))
             continue
@@ -292,7 +292,7 @@ def run_case(case):
                 n = t.numel(l)
                 e = float(np.abs(exp[off:off + n].reshape(t.shapes[l]) - delta[("leaf", l)]).max()) / (tol * 5.0 * scale * 8)
                 maxima["const"] = max(maxima.get("const", 0.0), e)
-                if e > 1:
+                if not (e <= 1):  # NaN-safe
                     viol.append(dict(sig="constant-weights-value-mismatch", cls="constvalue",
                                      msg=f"{where} | leaf {l}: got {delta[('leaf', l)].tolist()} expected {exp[off:off + n].tolist()}"[:900]))
                     break
